@@ -156,7 +156,7 @@ class Gen:
         scope, fields = list(t.scope), list(t.fields)
         allf = scope + fields
         for attempt in range(20):
-            k = rng.randrange(6) if (kind is None or attempt > 5) else kind
+            k = rng.randrange(7) if (kind is None or attempt > 5) else kind
             if k == 0 and self.proto == "ipfix":          # same element id, same length, other enterprise number
                 cand = [(i, p2) for i, (eid, pen, ln) in enumerate(allf) for p2 in (0, 9, 29305) if p2 != pen and (p2, eid) in self.model and ln != 65535]
                 if cand:
@@ -180,6 +180,16 @@ class Gen:
                 ns2 = ns + 1 if ns < len(allf) - (1 if self.proto == "ipfix" else 0) else ns - 1
                 if 1 <= ns2 <= len(allf) and ns2 != ns:
                     return Tpl(t.tid, allf[:ns2], allf[ns2:]), True
+            elif k == 6:                                  # one element replaced by one that is MISSING from the model (same length): the
+                i = rng.randrange(len(allf)); e = allf[i]  # id is now bound to a definition nothing can be decoded with
+                if e[2] != 65535:
+                    for _ in range(50):
+                        eid2 = rng.randrange(1, 32768)
+                        if (0, eid2) not in self.model:
+                            break
+                    else:
+                        continue
+                    allf[i] = (eid2, 0, e[2]); break
             elif k == 5:                                  # plain <-> options template with the same specifiers
                 if opts:
                     return Tpl(t.tid, [], allf), False
